@@ -95,6 +95,19 @@ def body_trunc(S, spec):
             cut = abs(cut) + 0.1
     # reference: the untruncated decomposition the library itself computes (same stub factors by memoisation)
     u0, s0, v0 = sr.linalg.svd(x)
+    # ... and that decomposition reproduces x through the library's own contraction (pending fermionic signs included): together with the
+    # term-identical slices below and orthonormality this is what makes the squared error equal the discarded squared weight
+    try:
+        if not spec.get("recon", True):
+            raise StopIteration  # (decided once per matrix: it does not depend on the truncation options)
+        p0 = u0.multiply_diagonal(s0, 1) @ v0
+        c0, cx0 = orc.coords(p0), orc.coords(x)
+        for k in set(c0) | set(cx0):
+            S.equal(f"untruncated:reconstructs@{k}", c0.get(k, 0), cx0.get(k, 0))
+    except StopIteration:
+        pass
+    except Violation as v:
+        S.structural.append((v.name, v.detail))
     allv = [e for b in s0.blocks.values() for e in b]
     if sym and len(allv) > 1:
         import z3
@@ -219,7 +232,7 @@ BODIES = {"body_trunc": body_trunc, "body_split": body_split}
 
 def _run(case):
     return run_case(BODIES[case.get("body", "body_trunc")], case["spec"], complex_=False, validate=False, want_sample=case.get("sample", False),
-                    seed=case.get("seed", 0), max_paths=1500, wall_limit=240)
+                    seed=case.get("seed", 0), max_paths=1500, wall_limit=120)
 
 
 def build_family(tier, seed):
@@ -233,7 +246,7 @@ def build_family(tier, seed):
         if sym == "U1":
             tabs.append(((uni[0], 1), (uni[1], 1), (uni[2], 1)))
         mats = []
-        for a in fam.array_specs(sym, 2, tabs, fermionic=fermionic, generic=generic, sparsity_threshold=3, phases=False, rng=rng, labels=(3,)):
+        for a in fam.array_specs(sym, 2, tabs, fermionic=fermionic, generic=generic, sparsity_threshold=3, phases=fermionic, rng=rng, labels=(3,)):
             nvals = sum(min(dict(a["indices"][0][0])[s[0]], dict(a["indices"][1][0])[s[1]]) for s in a["present"])
             if 1 <= nvals <= (4 if not thorough else 5) and len(a["present"]) <= 3:
                 mats.append((a, nvals))
@@ -244,9 +257,28 @@ def build_family(tier, seed):
                 for mb in sorted({-1, 1, max(1, nvals - 1), nvals, nvals + 1}):
                     if (k + mode + mb) % 3 and not thorough:
                         continue
-                    cases.append(dict(a=a, mode=mode, max_bond=mb, cutoff=True, absorbs=(-1, 0, 1) if (k + mode) % 2 == 0 else (1,), mono=(k + mb) % 2 == 0))
+                    cases.append(dict(a=a, mode=mode, max_bond=mb, cutoff=True, absorbs=(-1, 0, 1) if (k + mode) % 2 == 0 else (1,), mono=(k + mb) % 2 == 0, recon=False))
             for mb in sorted({-1, 1, 2, max(1, nvals - 1), nvals, nvals + 1}):
-                cases.append(dict(a=a, mode=4, max_bond=mb, cutoff=False, absorbs=(-1, 0, 1), mono=False))
+                cases.append(dict(a=a, mode=4, max_bond=mb, cutoff=False, absorbs=(-1, 0, 1), mono=False, recon=(mb == -1)))
+        # matrices obtained by fusing a rank-3 array (the column leg carries sub-index bookkeeping; the new bond must not)
+        from vlib.session import Session as _Sess
+        r3 = list(fam.array_specs(sym, 3, tabs[:2], fermionic=fermionic, generic=generic, sparsity_threshold=3, phases=False, rng=rng, labels=(3,)))
+        r3, _ = fam.thin(r3, 40 if not thorough else 400, seed + 3)
+        nfused = 0
+        for k, a in enumerate(r3):
+            a = dict(a, prefuse=(((1, 2),),))
+            try:
+                xm = build(_Sess("num", rng=random.Random(1)), a)
+            except Exception:
+                continue
+            nvals = sum(min(np.shape(b)) for b in xm.blocks.values())
+            if not (2 <= nvals <= (4 if not thorough else 5)) or len(xm.blocks) > 3:
+                continue
+            nfused += 1
+            if nfused > (6 if not thorough else 40):
+                break
+            for mode, mb, cutf in ((1, -1, True), (4, max(1, nvals - 1), True), (4, 1, False), (2, nvals, True)):
+                cases.append(dict(a=a, mode=mode, max_bond=mb, cutoff=cutf, absorbs=(-1, 0, 1) if cutf else (1,), mono=False, recon=(mode == 1)))
         groups[f"truncate/{nm}"] = ([dict(body="body_trunc", spec=c, sample=(i % 150 == 0), seed=seed + i) for i, c in enumerate(cases)], False)
     sp = []
     for n in (1, 2, 3, 4):
